@@ -21,3 +21,10 @@ func VerifRelaxClientTimeouts() {
 		},
 	}
 }
+
+// VerifSetBackChannel makes every back-channel call to the authenticator go through rt (an in-memory
+// scripted authenticator that answers in the calling goroutine, so that the cooperative scheduler can
+// treat each call as one of the calling request's steps). No wall-clock timeout applies.
+func VerifSetBackChannel(rt http.RoundTripper) {
+	httpClient = &http.Client{Transport: rt}
+}
